@@ -249,6 +249,36 @@ RAW_NS = ('xmlns:text="urn:oasis:names:tc:opendocument:xmlns:text:1.0" xmlns:tab
           'xmlns:draw="urn:oasis:names:tc:opendocument:xmlns:drawing:1.0" xmlns:svg="urn:oasis:names:tc:opendocument:xmlns:svg-compatible:1.0"')
 
 
+OPTIONAL_CONTAINERS = {
+    "meta.xml": ["meta"],                                         # office:meta is optional in office:document-meta
+    "content.xml": ["automatic-styles", "font-face-decls", "scripts"],
+    "styles.xml": ["master-styles", "automatic-styles", "font-face-decls"],
+    "settings.xml": ["settings"],
+}
+
+
+def sparse_bytes(data, body_too=True):
+    """the same package with the OPTIONAL containers removed (valid ODF; other producers leave them out), rewritten with lxml and
+    zipfile only: meta.xml without office:meta, content.xml without automatic-styles / font-face-decls / scripts (and the body
+    without text:sequence-decls / variable-decls / user-field-decls), styles.xml without master-styles / automatic-styles"""
+    src = zipfile.ZipFile(io.BytesIO(data))
+    out = io.BytesIO()
+    with zipfile.ZipFile(out, "w") as z:
+        for info in src.infolist():
+            raw = src.read(info.filename)
+            if info.filename in OPTIONAL_CONTAINERS:
+                tree = etree.fromstring(raw)
+                for child in list(tree):
+                    if isinstance(child.tag, str) and child.tag.startswith(OFFICE) and child.tag[len(OFFICE):] in OPTIONAL_CONTAINERS[info.filename]:
+                        tree.remove(child)
+                if info.filename == "content.xml" and body_too:
+                    for d in list(tree.iter(T + "sequence-decls", T + "variable-decls", T + "user-field-decls")):
+                        d.getparent().remove(d)
+                raw = etree.tostring(tree, xml_declaration=True, encoding="UTF-8")
+            z.writestr(info, raw, compress_type=zipfile.ZIP_STORED if info.filename == "mimetype" else zipfile.ZIP_DEFLATED)
+    return out.getvalue()
+
+
 def raw_table(rng, name, tight):
     """a table as other producers write them.  tight: exactly as wide as its content -- the last row and the last column are
     in use while inner rows END WITH EXPLICIT EMPTY CELLS (or are ragged); otherwise padded: more columns declared than used,
@@ -333,6 +363,13 @@ def raw_document(odfdo, spec, rng):
     # constructs spelled as OTHER producers write them (valid, but not odfdo's own spelling): wrapping must not normalise them
     parts.insert(0 if not text else rng.randint(0, len(parts)), foreign_table("Foreign"))
     if text:
+        parts.append('<text:p>before<text:note text:note-class="footnote" text:id="ftnE1"><text:note-citation/><text:note-body><text:p>empty citation</text:p>'
+                     '</text:note-body></text:note> middle<text:note text:note-class="endnote" text:id="ftnE2"><text:note-citation></text:note-citation>'
+                     '<text:note-body><text:p>again</text:p></text:note-body></text:note> after</text:p>')
+        parts.append('<text:h text:outline-level="2">title<text:note text:note-class="footnote" text:id="ftnE3"><text:note-citation/>'
+                     '<text:note-body><text:p>in a heading</text:p></text:note-body></text:note></text:h>')
+        parts.append('<text:p><draw:frame svg:width="1cm" svg:height="1cm"><draw:image xlink:href="Pictures/none.png"/></draw:frame>'
+                     '<draw:frame><draw:image xlink:href=""/></draw:frame></text:p>')
         parts.append('<text:p text:style-name="Style_20_with space &amp; é">styled <draw:frame draw:name="f 1" svg:width="10mm" svg:height="0.3937in" '
                      'text:anchor-type="as-char" draw:z-index="0"><draw:text-box><text:p>in a box</text:p></draw:text-box></draw:frame></text:p>')
         parts.append('<text:p><text:date text:date-value="2024-02-29" text:fixed="true">29/02/24</text:date> <text:s text:c="1"/>'
@@ -373,8 +410,13 @@ def open_source(odfdo, src):
         key = json.dumps(src["spec"], sort_keys=True)
         if key not in _GEN_CACHE:       # frozen once: every (re)load of a generated document sees the same bytes
             buf = io.BytesIO()
-            gen_document(odfdo, src["spec"]).save(buf)
-            _GEN_CACHE[key] = buf.getvalue()
+            spec = dict(src["spec"])
+            sparse = spec.pop("sparse", False)
+            if spec["gen"] == "template":
+                Document(spec["name"]).save(buf)
+            else:
+                gen_document(odfdo, spec).save(buf)
+            _GEN_CACHE[key] = sparse_bytes(buf.getvalue()) if sparse else buf.getvalue()
         data = _GEN_CACHE[key]
         origin = {}
         with zipfile.ZipFile(io.BytesIO(data)) as z:
@@ -465,7 +507,7 @@ READ_NAME = re.compile(r"^(get_|is_|search|match$|replace$|to_|as_|show_|seriali
                        r"minimized_width$|last_cell$|clone$|elements_repeated_sequence$|text_at$|check_validity$|referenced_text$|"
                        r"get$)")
 # names that match the pattern but are not claimed read-only by anybody (they create things on purpose) or need a live context
-NOT_READ = {"get_formatted_text"}      # needs a context argument at element level: in the explicit list instead
+NOT_READ = set()
 
 
 def ctx_dict(doc, rst):
@@ -659,6 +701,18 @@ def locators(doc, tier, rng):
     if tier == "quick" and len(els) > 10:       # a seeded sample of the tags; the thorough tier takes them all
         rng.shuffle(els)
         els = sorted(els[:10])
+    # per text container tag (p, h, list, section, table-cell content): also the RICHEST element -- the one with the most
+    # distinct descendant tags (notes with empty citations, frames, images without names, fields ...), never sampled away
+    for tag in (T + "p", T + "h", T + "list", T + "section"):
+        best, bi, n = -1, None, 0
+        for node in root.iter(tag):
+            k = len({d.tag for d in node.iterdescendants() if isinstance(d.tag, str)})
+            if k > best:
+                best, bi = k, n
+            n += 1
+        for idx in {0, bi} - {None}:
+            if n and (("el", tag, idx), "element") not in els:
+                els.append((("el", tag, idx), "element"))
     out += els
     # elements of the styles part (Style objects and friends): first of every tag, a seeded sample in the quick tier
     try:
@@ -728,7 +782,8 @@ OPT_ARGS = {
     "coord": ["A1:C3", "B:D", (1, 3), (0, 0, 2, 2), "B2", (1, 1)],
     "start": [1], "end": [3], "area": ["A1:C3"], "cell_type": ["all", "string"], "content": ["a"], "style": ["x"],
 }
-NO_CALL = {"get_between", "get_formatted_text"}      # need two elements / have a hand-written entry with both context modes
+NO_CALL = {"get_between"}      # needs two elements.  (get_formatted_text: also called WITHOUT a context -- its default context
+                               # must be fresh on every call, C15-7 -- besides the hand-written entries with both context modes)
 
 
 def _lab(v):
@@ -1002,7 +1057,7 @@ def run_document(src, tier, seed, only=None):
 
     # CPU budget per document (big.ods: every snapshot is a C14N of a 1.5 MB tree): what is not reached is counted
     t_start = time.process_time()
-    total = 24 if tier == "quick" else 100
+    total = 24 if tier == "quick" else 80
     first_pass = total * 2 / 3
     for idx, ent in enumerate(ents):
         if only is None and time.process_time() - t_start > first_pass:
@@ -1104,11 +1159,16 @@ def sources(tier, seed):
         samples = [p for p in samples if p.name not in QUICK_SKIP]
     for p in samples:
         out.append(dict(id="sample:" + p.name, kind="sample", path=str(p)))
-    ngen = 3 if tier == "quick" else 12
+    ngen = 3 if tier == "quick" else 8
     for i in range(ngen):
         out.append(dict(id="generated:text:%d" % i, kind="generated", spec=dict(gen="text", seed=seed * 1000 + i)))
         out.append(dict(id="generated:sheet:%d" % i, kind="generated", spec=dict(gen="sheet", seed=seed * 1000 + i)))
-    nraw = 3 if tier == "quick" else 10
+    # documents whose OPTIONAL containers are absent (a getter that creates one is a writer)
+    for name in ("text", "spreadsheet", "presentation"):
+        out.append(dict(id="generated:sparse:" + name, kind="generated", spec=dict(gen="template", name=name, sparse=True, seed=0)))
+    for i in range(1 if tier == "quick" else 3):
+        out.append(dict(id="generated:sparse:rawtext:%d" % i, kind="generated", spec=dict(gen="rawtext", seed=seed * 1000 + 50 + i, sparse=True)))
+    nraw = 3 if tier == "quick" else 6
     for i in range(nraw):
         out.append(dict(id="generated:rawtext:%d" % i, kind="generated", spec=dict(gen="rawtext", seed=seed * 1000 + i)))
         out.append(dict(id="generated:rawsheet:%d" % i, kind="generated", spec=dict(gen="rawsheet", seed=seed * 1000 + i)))
